@@ -41,19 +41,25 @@ size_t RequestParser::parse(const void *data_ptr, size_t data_size)
         if (sp_request_ == nullptr)
             sp_request_ = new Request;
 
+        /* 解析："GET /index.html HTTP/1.1\r\n" */
+        //! 必须先确认首行完整，再判断 method 是否合法；否则首行被TCP分段时会误判为失败
+        auto end_pos = str.find(CRLF, pos);
+        if (end_pos == std::string::npos)   //! 如果没有找到首行 \r\n，则放弃
+            return 0;
+
         //! 获取 method
         auto method_str_end = str.find_first_of(' ', pos);
+        if (method_str_end == std::string::npos || method_str_end >= end_pos) {
+            state_ = State::kFail;
+            return pos;
+        }
+
         auto method_str = str.substr(pos, method_str_end);
         auto method = StringToMethod(method_str);
         if (method == Method::kUnset) {
             state_ = State::kFail;
             return pos;
         }
-
-        /* 解析："GET /index.html HTTP/1.1\r\n" */
-        auto end_pos = str.find(CRLF, method_str_end);
-        if (end_pos == std::string::npos)   //! 如果没有找到首行 \r\n，则放弃
-            return 0;
 
         sp_request_->method = method;
 
